@@ -576,7 +576,8 @@ def wrap_named(rng, leaf, ty, names, allow_catch=False, depth=2):
     if rng.random() < 0.05:
         p = wrap("hide-usage", p)
     if rng.random() < 0.08:
-        p = wrap("group-help", p, d="group title")
+        p = wrap("group-help", p, d=rng.choice(["group title", "Настройки", "größe und so", "日本語の設定", "title\nwith a second line",
+                                                "émigré"]))
     if rng.random() < 0.05:
         p = wrap("map", p, menu=2)
     return p
